@@ -313,6 +313,8 @@ func doLookup(e *in, o map[string]interface{}) {
 	o["blkd"], o["blke"] = bd, be
 }
 
+var sharedDecoder = dmdec.NewDecoder()
+
 // doDmg: write a symbol, flip the modules of every fault script (computed by TLC from the standard's placement), decode.
 func doDmg(e *in, o map[string]interface{}) {
 	text := str(e)
@@ -324,7 +326,7 @@ func doDmg(e *in, o map[string]interface{}) {
 	}
 	o["err"], o["w"], o["h"] = 0, bm.GetWidth(), bm.GetHeight()
 	res := make([][]int, len(e.Sets))
-	dec := dmdec.NewDecoder()
+	dec := sharedDecoder // one decoder object for the whole run (history-dependent decoder state must show)
 	for k, st := range e.Sets {
 		c, _ := gozxing.NewBitMatrix(bm.GetWidth(), bm.GetHeight())
 		for y := 0; y < bm.GetHeight(); y++ {
